@@ -12,20 +12,20 @@ CPUS = {
     "8008": (1, 3, 140, "quick", [], False),
     "1802": (1, 3, 140, "quick", ["CLASS_MASK=0xff", "CLASS_VAL=0x68"], False),
     "1802.prefix68": (1, 3, 140, "quick", ["CLASS_MASK=0xff", "CLASS_VAL=0x68", "CLASS_ONLY"], False),
-    "pdp11": (2, 6, 140, "thorough", ["STRINGS_ABSTRACT"], True),   # reads the following word before it knows the addressing mode needs it: locality is decided as 2-safety
-    "tms9900": (2, 6, 140, "thorough", [], False),
-    "6800": (1, 3, 300, "thorough", [], False),
+    "pdp11": (2, 6, 140, "quick", ["STRINGS_ABSTRACT"], True),   # reads the following word before it knows the addressing mode needs it: locality is decided as 2-safety
+    "tms9900": (2, 6, 140, "quick", [], False),
+    "6800": (1, 3, 300, "quick", [], False),
     # 6809 was tried (length 1..5) and does not finish (solver out of memory at 10 GB with 2^14 objects): not decided
     # 68hc08 reads the second opcode byte before it knows the first is a prefix: 2-safety form; first byte 0x9e (prefix) is a class of its own (known finding)
-    "68hc08": (1, 4, 300, "thorough", ["STRINGS_ABSTRACT", "CLASS_MASK=0xff", "CLASS_VAL=0x9e"], True),
-    "68hc08.prefix9e": (1, 4, 300, "thorough", ["STRINGS_ABSTRACT", "CLASS_MASK=0xff", "CLASS_VAL=0x9e", "CLASS_ONLY"], True),
-    "8051": (1, 3, 300, "thorough", [], False),
-    "4004": (1, 2, 300, "thorough", [], False),
-    "8048": (1, 2, 300, "thorough", [], False),
-    "f8": (1, 3, 300, "thorough", [], False),
-    "m8c": (1, 3, 300, "thorough", [], False),
-    "sweet16": (1, 3, 300, "thorough", [], False),
-    "65816": (1, 4, 300, "thorough", [], False),
+    "68hc08": (1, 4, 300, "quick", ["STRINGS_ABSTRACT", "CLASS_MASK=0xff", "CLASS_VAL=0x9e"], True),
+    "68hc08.prefix9e": (1, 4, 300, "quick", ["STRINGS_ABSTRACT", "CLASS_MASK=0xff", "CLASS_VAL=0x9e", "CLASS_ONLY"], True),
+    "8051": (1, 3, 300, "quick", [], False),
+    "4004": (1, 2, 300, "quick", [], False),
+    "8048": (1, 2, 300, "quick", [], False),
+    "f8": (1, 3, 300, "quick", [], False),
+    "m8c": (1, 3, 300, "quick", [], False),
+    "sweet16": (1, 3, 300, "quick", [], False),
+    "65816": (1, 4, 300, "quick", [], False),
     # stm8 was tried (table scan needs more than 300 unwindings; with 900 it does not finish in 900 s): not decided
     # z80 (reads ahead, 2-safety form) was tried and does not finish (out of memory at 10 GB, timeout at 2400 s with 30 GB): not decided
 }
